@@ -285,8 +285,14 @@ func (w *worker) clean(key string) {
 	dbName, _ := record.ParseKey(key)
 	for _, d := range dbTable {
 		if d.Name == dbName && d.Kind == "p" {
+			// overwrite whatever is there (secret, expired, shadow-deleted …) with a plain record, then delete;
+			// the delete is attempted even if the overwrite failed (fstree: a key near the file-name limit is
+			// writable or not depending on the length of the random temp-file suffix)
 			r, _ := record.NewWrapper(key, nil, 'J', []byte("{}"))
-			if err := w.priv.Put(r); err == nil {
+			_ = w.priv.Put(r)
+			if err := w.priv.Delete(key); err != nil && errClass(err.Error()) != "notfound" {
+				r2, _ := record.NewWrapper(key, nil, 'J', []byte("{}"))
+				_ = w.priv.Put(r2)
 				_ = w.priv.Delete(key)
 			}
 		}
